@@ -792,7 +792,101 @@ def c15_14(ctx):
 
 
 
+def c15_15(ctx):
+    """Share.__init__ over the whole domain of its small fields: every (group threshold, group count) in 0..17 × 0..17 is accepted exactly
+    when 1 <= k <= n <= 16 -- 1-of-n for n >= 2 included, the property quantifies over it; group and member index exactly 0..15; member
+    threshold exactly 1..16; the fields are stored as given"""
+    from sa.cells import Evaluator, Obj, Raised, Undecided
+    spec = "shamir:Share.__init__"
+    mod, fn = rl.get(ctx, spec)
+    base = {"share_bit_length": 128, "id": 7, "exponent": 1, "group_index": 0, "group_threshold": 1, "group_count": 1, "member_index": 0, "member_threshold": 1, "value": 5}
+    cells = []
+    for k in range(0, 18):
+        for n_ in range(0, 18):
+            cells.append(({"group_threshold": k, "group_count": n_}, 1 <= k <= n_ <= 16, "group threshold %d of %d" % (k, n_)))
+    for v in range(-1, 18):
+        cells.append(({"group_index": v, "group_count": 16, "group_threshold": 2}, 0 <= v <= 15, "group index %d" % v))
+        cells.append(({"member_index": v}, 0 <= v <= 15, "member index %d" % v))
+        cells.append(({"member_threshold": v}, 1 <= v <= 16, "member threshold %d" % v))
+    n = 0
+    try:
+        for delta, ok, label in cells:
+            n += 1
+            kw = dict(base)
+            kw.update(delta)
+            me = Obj("shamir", "Share", {})
+            try:
+                Evaluator(ctx.repo).call(spec, [], kwargs=kw, self_obj=me)
+                accepted = True
+            except Raised:
+                accepted = False
+            if accepted != ok:
+                return [ctx.bad(spec, "a share with %s is %s; SLIP39 %s it%s" % (label, "accepted" if accepted else "refused", "allows" if ok else "does not allow",
+                                                                               ": such shares can no longer be generated, parsed or recovered" if ok else ""), fn, mod, key="share-domain")]
+            if accepted and any(me.attrs.get(f_) != v_ for f_, v_ in kw.items()):
+                return [ctx.bad(spec, "a share with %s is stored with other field values than it was given" % label, fn, mod, key="share-domain")]
+    except Undecided as u:
+        return [ctx.err(spec, "Share constructor not evaluable: %s" % u, fn, mod)]
+    ctx.count("cells", n)
+    return [ctx.ok(spec, "%d field cells: accepted exactly for 1 <= k <= n <= 16, indexes 0..15, member threshold 1..16" % n, fn, mod, key="share-domain")]
+
+
+def c15_16(ctx):
+    """ShareSet.__init__ over share lists in which exactly one share differs from the others in one header field, or repeats a coordinate, at
+    every position of the list: a set is accepted exactly when all shares agree on identifier, exponent, k, n and length and every
+    (group index, member index) occurs once -- a share of another split is never silently dropped, wherever it stands"""
+    from sa.cells import Evaluator, Obj, Raised, Undecided
+    spec = "shamir:ShareSet.__init__"
+    mod, fn = rl.get(ctx, spec)
+
+    def share(gi, mi, **over):
+        a = {"id": 100, "exponent": 1, "group_threshold": 2, "group_count": 3, "share_bit_length": 128, "group_index": gi, "member_index": mi, "member_threshold": 1,
+             "value": gi * 16 + mi, "bytes": bytes([gi, mi]) * 8}
+        a.update(over)
+        return Obj("shamir", "Share", a)
+    honest = [(0, 0), (1, 0), (2, 0)]
+    cases = [([share(*c) for c in honest[:k]], True, "%d honest shares" % k) for k in (1, 2, 3)]
+    for field, other in (("id", 101), ("exponent", 2), ("group_threshold", 3), ("group_count", 4), ("share_bit_length", 256)):
+        for pos in range(3):
+            lst = [share(*c) for c in honest]
+            lst[pos] = share(*honest[pos], **{field: other})
+            cases.append((lst, False, "share %d of 3 has another %s" % (pos + 1, field)))
+    for pos in range(3):
+        for dup_of in range(3):
+            if dup_of == pos:
+                continue
+            # a share of another split (other id, other value) that has the coordinates of share `dup_of`, placed at `pos`
+            lst = [share(*c) for c in honest]
+            lst.insert(pos, share(*honest[dup_of], id=999, value=12345))
+            cases.append((lst, False, "a share of another split with the coordinates of share %d inserted at position %d" % (dup_of + 1, pos + 1)))
+            lst2 = [share(*c) for c in honest]
+            lst2.insert(pos, share(*honest[dup_of]))
+            cases.append((lst2, False, "share %d given twice (second copy at position %d)" % (dup_of + 1, pos + 1)))
+    n = 0
+    try:
+        for lst, ok, label in cases:
+            n += 1
+            me = Obj("shamir", "ShareSet", {})
+            try:
+                Evaluator(ctx.repo).call(spec, [list(lst)], self_obj=me)
+                accepted = True
+            except Raised:
+                accepted = False
+            if accepted != ok:
+                return [ctx.bad(spec, "%s: the share set is %s" % (label, "accepted -- the foreign or repeated share is combined or silently dropped instead of being refused" if accepted
+                                                                else "refused"), fn, mod, key="set-consistency")]
+            if accepted and me.attrs.get("shares") != lst:
+                return [ctx.bad(spec, "%s: the set does not keep exactly the shares it was given" % label, fn, mod, key="set-consistency")]
+    except Undecided as u:
+        return [ctx.err(spec, "ShareSet constructor not evaluable: %s" % u, fn, mod)]
+    ctx.count("cells", n)
+    return [ctx.ok(spec, "%d share lists: accepted exactly when all shares agree on the header and no coordinate repeats, at every position" % n, fn, mod, key="set-consistency")]
+
+
+
 OBLIGATIONS = [
+    ("C15.16", "CELLS share set consistency", c15_16),
+    ("C15.15", "CELLS share field domain", c15_15),
     ("C15.14", "CELLS GF(256)", c15_14),
     ("C15.13", "SHARED", c15_13),
     ("C15.12", "SET-ORDER", c15_12),
